@@ -321,6 +321,8 @@ class Check:
         if self.level == 'translation_validation':
             cov.update(programs=max(1, self.programs), disagreements_checked=len(sat))
         if extra_cov: cov.update(extra_cov)
+        n, unsat = cov['obligations'], cov['discharged']
+        nsat = cov.get('sat_counterexamples', len(sat))
         ev = {
             'property_id': self.pid, 'tier': self.tier, 'seed': self.seed, 'level': self.level,
             'coverage': cov, 'assumptions': self.assumptions, 'wall_s': round(time.time() - self.t0, 2),
@@ -328,7 +330,7 @@ class Check:
         }
         os.makedirs(os.path.join(VERIF, 'evidence'), exist_ok=True)
         json.dump(ev, open(os.path.join(VERIF, 'evidence', f'{self.pid}.json'), 'w'), indent=1, default=str)
-        print(f'[{self.pid}/{self.tier}] obligations={n} discharged={unsat} sat={len(sat)} undischarged={len(und)} '
+        print(f'[{self.pid}/{self.tier}] obligations={n} discharged={unsat} sat={nsat} undischarged={len(cov["undischarged"])} '
               f'violations={len(self.violations)} known={len(self.known_hits)} paths={self.paths} wall={time.time() - self.t0:.1f}s', flush=True)
         for o in und:
             print(f'  UNDISCHARGED {o.name}: {o.result.status if o.result else "not-run"} {(o.result.detail if o.result else "")[:120]}', flush=True)
